@@ -83,7 +83,7 @@ def r1_validate_before_mutate(run, w):
   def is_mut(c, nm, f):
     if nm and nm.startswith("self.") and nm.count(".") == 1 and nm.split(".")[1] in ua:
       return True
-    return bool(E.is_gateway_call(c, nm, f) or (
+    return bool(H.is_gateway(w, c, nm, f) or (
       isinstance(c.func, ast.Attribute) and f.type_of(c.func.value) == T.DOCMODEL and
       c.func.attr in ("add", "insert", "insert_after", "update", "remove")) or
       (isinstance(c.func, ast.Attribute) and c.func.attr.startswith("doBulk")))
